@@ -192,5 +192,105 @@ def as_inputs(case, tx_id):
         out.append([r['a'], r['b'], donor, dv])
     return out
 
+# ------------------------------------------------------------------ circRNA
+def gen_circ_case(rng, nvar=None, coding_p=0.7, n_circ=None):
+    """case['circ_records'] = [{tx, frags: [[s, e] ...] gene coordinates ascending, row}]: back-spliced exons i..j of one
+    transcript, with probability 0.3 together with a retained intron between two of them (INTRON index list);
+    small records clustered at fragment starts (the excluded first 3 nt and just behind), fragment ends, the
+    back-splice junction, ATG codons of the circle"""
+    for _ in range(400):
+        world = G.gen_world(rng, n_chrom=1, max_genes=2, coding_p=coding_p, small=True, sec_p=0.1, nf_p=0.1)
+        cands = [(g, t) for g in world['genes'] for t in g['transcripts'] if G.tx_len(t) >= 40]
+        if not cands:
+            continue
+        gene, tx = rng.choice(cands)
+        ex = tx_exons(gene, tx)
+        gseq = G.gene_seq(world, gene)
+        recs = []
+        for _k in range(n_circ or rng.choice([1, 1, 1, 2])):
+            i = rng.randrange(len(ex)); j = rng.randrange(i, len(ex))
+            if j == i and len(ex) > 1 and rng.random() < 0.6:
+                i = rng.randrange(len(ex) - 1); j = rng.randrange(i + 1, len(ex))       # prefer several fragments
+            if j - i > 3:
+                j = i + 3
+            frags = [list(f) for f in ex[i:j + 1]]
+            introns = []
+            order = None
+            if j > i and rng.random() < 0.3:
+                q = rng.randrange(i, j)                      # intron between exon q and q+1 retained
+                if ex[q + 1][0] - ex[q][1] >= 1:
+                    iv = [ex[q][1], ex[q + 1][0]]
+                    if rng.random() < 0.5:
+                        order = frags + [iv]                 # row lists the exons first, the intron last (unsorted)
+                    frags.append(iv)
+                    frags.sort()
+                    introns = [(order or frags).index(iv) + 1]
+            L = sum(b - a for a, b in frags)
+            if L < 12 or L > 260:
+                continue
+            start = frags[0][0]
+            rowfr = order or frags
+            cid = 'CIRC-%s-%d:%d' % (tx['id'], frags[0][0], frags[-1][1])
+            if any(r['row']['id'] == cid and r['frags'] == frags for r in recs):
+                continue
+            if any(r['row']['id'] == cid for r in recs):
+                cid += 'b'
+            recs.append({'tx': tx['id'], 'frags': frags,
+                         'row': dict(gene_id=gene['id'], start=start, id=cid, offsets=[a - start for a, _ in rowfr],
+                                     lengths=[b - a for a, b in rowfr], introns=introns, tx_id=tx['id'], gene_name=gene['name'])})
+        if not recs:
+            continue
+        centres = []
+        for r in recs:
+            turn = ''.join(gseq[a:b] for a, b in r['frags'])
+            for a, b in r['frags']:
+                centres += [a, a + 1, a + 3, a + 4, a + 5, b - 2, b - 1, (a + b) // 2]
+            pos = [g for a, b in r['frags'] for g in range(a, b)]
+            import re as _re
+            for m in _re.finditer('ATG', turn + turn[:2]):
+                centres += [pos[(m.start() + d) % len(pos)] for d in (0, 3, 6)]
+        n = nvar if nvar is not None else rng.choice([0, 1, 1, 2, 2, 3, 3, 4])
+        seen, small = set(), []
+        tries = 0
+        while len(small) < n and tries < 100:
+            tries += 1
+            gs = rng.choice(centres) + int(round(rng.gauss(0, 3)))
+            if not (0 <= gs < len(gseq) - 6):
+                continue
+            ref, alt = _small(rng, gseq, gs)
+            if not ref or ref == alt or gs + len(ref) > len(gseq) or (gs, ref, alt) in seen:
+                continue
+            seen.add((gs, ref, alt)); small.append((gs, ref, alt))
+        rows = []
+        for gs, ref, alt in sorted(small):
+            for t in gene['transcripts']:
+                kind, _, _ = CG.map_record(gene, t, gs, gs + len(ref))
+                if kind != 'outside':
+                    rows.append([gene['id'], gs + 1, CG.var_id(gs, ref, alt), ref, alt, t['id'], gene['name']])
+        return {'world': world, 'gvf': rows, 'gene': gene['id'], 'target': tx['id'],
+                'tag': 'circ:%d' % len(recs), 'circ_records': recs}
+    raise RuntimeError('circRNA generator failed')
+
 def circ_inputs(case, tx_id, run, prots=None):
-    return []
+    """oracle inputs (Model/SpecCirc.v cv_circ) of the circRNA records of tx_id:
+    [gene sequence, fragments, small record rows of this transcript in GENE coordinates (ok = exonic for it), rule, exc, limits, proteome]"""
+    world = case['world']
+    out = []
+    for r in case.get('circ_records', []):
+        if r['tx'] != tx_id:
+            continue
+        gene = next(g for g in world['genes'] if any(t['id'] == tx_id for t in g['transcripts']))
+        tx = next(t for t in gene['transcripts'] if t['id'] == tx_id)
+        vs, seen = [], set()
+        for gene_id, pos1, vid, ref, alt, t_id, _ in case.get('gvf', []):
+            if t_id != tx_id or gene_id != gene['id'] or vid in seen:
+                continue
+            seen.add(vid)
+            gs = pos1 - 1
+            kind, _, _ = CG.map_record(gene, tx, gs, gs + len(ref))
+            vs.append([gs, gs + len(ref), alt, kind == 'exonic'])
+        vs.sort(key=lambda v: (v[0], v[1], v[2]))
+        out.append([G.gene_seq(world, gene), [list(f) for f in r['frags']], vs, run['rule'],
+                    (run['exc'] if run['exc'] != 'None' else None), [run['k'], run['mw4'], run['min_len'], run['max_len']],
+                    prots if prots is not None else CG.proteome(world)])
+    return out
